@@ -728,6 +728,8 @@ class Stats:
         self.samples = []
         self.src_desc = src_desc
         self.nfail = 0
+        self.late = []        # programs kept for a second evaluation once every other program of this source has been built (see run_space)
+        self.late_keys = {}
 
     def fail(self, ob, klass, prog, observed, clause):
         self.nfail += 1
@@ -820,6 +822,11 @@ def step(F, nodes, R, op, prog, stats, cache, evaluate_it=True):
             if not _close(g.astype(float), x, exp):
                 stats.fail(ob, klass, prog, f"at {dict(zip(rdims, idx))}: {g.tolist()}, NumPy gives {x.tolist()}", cl)
                 return None
+        if not op.noop and klass == "other":
+            lk = (len(prog), str(op.desc[0]))
+            if stats.late_keys.get(lk, 0) < 3 and len(stats.late) < 120:  # up to 3 programs per (depth, last operation)
+                stats.late_keys[lk] = stats.late_keys.get(lk, 0) + 1
+                stats.late.append((res, exp, rdims, list(prog)))
     return rn, exp
 
 
@@ -879,6 +886,28 @@ def run_space(out, F, name, plan, bound, deadline):
         step(F, action.nodes, R, src_op, [], st, cache)
         if not explore(F, action.nodes, R, [], levels, st, cache, deadline):
             complete = False
+        # a graph is evaluated when the user's whole program has been written: building OTHER actions in between must not change what an
+        # already built action computes (shared mutable payload pieces, defaults, caches).  A sample of the programs that compared equal when
+        # evaluated at once is evaluated again - from scratch - now that every other program over this source exists.
+        for res, exp, rdims, prog in st.late:
+            st.cases += 1
+            try:
+                with warnings.catch_warnings():
+                    warnings.simplefilter("ignore")
+                    with np.errstate(all="ignore"), _time_limit(CASE_SECONDS):
+                        got = evaluate(res, Cache(), F)
+                for idx in np.ndindex(*res.nodes.shape):
+                    g = np.asarray(got[idx])
+                    x = exp.big[idx]
+                    if g.dtype == object or g.shape != x.shape or not _close(g.astype(float), x, exp):
+                        st.fail("C13/values-unchanged-by-building-other-programs", "other", prog,
+                                f"evaluated right after it was built this program agreed with NumPy; evaluated again after other programs over the same source "
+                                f"were built, at {dict(zip(rdims, idx))}: shape {g.shape} {g.tolist() if g.dtype != object else '?'}, NumPy gives shape {x.shape} {x.tolist()}", CL_VALUE)
+                        break
+            except _CaseTimeout:
+                pass
+            except Exception as e:  # noqa
+                st.fail("C13/values-unchanged-by-building-other-programs", "other", prog, f"second evaluation raised {type(e).__name__}: {e}", CL_VALUE)
         total.cases += st.cases
         total.nontrivial += st.nontrivial
         total.skipped_range += st.skipped_range
